@@ -111,6 +111,22 @@ func shapeList() []shapeCtor {
 			}
 			return sdf.Text2D(f, sdf.NewText("Ab"), 10)
 		}},
+		{name: "Text2D(long)", mk2: func() (sdf.SDF2, error) {
+			// more glyphs than any small fixed-size scratch area would hold
+			f, err := sdf.LoadFont(repoFile("cmr10.ttf"))
+			if err != nil {
+				return nil, err
+			}
+			return sdf.Text2D(f, sdf.NewText("The quick brown fox jumps over it"), 10)
+		}},
+		{name: "Union2D(40 operands)", mk2: func() (sdf.SDF2, error) {
+			var ops []sdf.SDF2
+			for i := 0; i < 40; i++ {
+				c, _ := sdf.Circle2D(0.3 + 0.01*float64(i))
+				ops = append(ops, sdf.Transform2D(c, sdf.Translate2d(v2.Vec{X: float64(i%8) * 1.5, Y: float64(i/8) * 1.5})))
+			}
+			return sdf.Union2D(ops...), nil
+		}},
 		{name: "InvoluteGear", mk2: func() (sdf.SDF2, error) {
 			return obj.InvoluteGear(&obj.InvoluteGearParms{NumberTeeth: 12, Module: 1, PressureAngle: sdf.DtoR(20), RingWidth: 2, Facets: 4})
 		}},
@@ -172,6 +188,17 @@ func shapeList() []shapeCtor {
 		}},
 		{name: "ImportTriMesh", mk3: func() (sdf.SDF3, error) {
 			return obj.ImportTriMesh(render.ToTriangles(box3(), render.NewMarchingCubesOctree(6)), 3, 3, 5), nil
+		}},
+		{name: "ImportTriMesh(with zero-area triangles)", mk3: func() (sdf.SDF3, error) {
+			// meshes from other tools contain triangles with repeated vertices; whatever the import does with
+			// them must not happen lazily inside Evaluate
+			ts := render.ToTriangles(box3(), render.NewMarchingCubesOctree(6))
+			n := len(ts)
+			for i := 0; i < n; i += 7 {
+				t := *ts[i]
+				ts = append(ts, &sdf.Triangle3{t[0], t[0], t[1]}, &sdf.Triangle3{t[2], t[1], t[2]})
+			}
+			return obj.ImportTriMesh(ts, 8, 3, 5), nil
 		}},
 		{name: "ImportSTL", mk3: func() (sdf.SDF3, error) { return obj.ImportSTL(repoFile("teapot.stl"), 3, 3, 5) }},
 		{name: "Bolt", mk3: func() (sdf.SDF3, error) {
@@ -319,6 +346,7 @@ type concObs struct {
 	Mismatch int    `json:"mismatch"` // concurrent results that differ from the sequential values
 	Evals    int    `json:"evals"`
 	Built    bool   `json:"built"`
+	Unstable bool   `json:"unstable"` // two instances built one after the other differ in value (seeded random sampling in the constructor)
 	Err      string `json:"err,omitempty"`
 }
 
@@ -383,24 +411,42 @@ func c10Child(args []string) error {
 		cold, _ := sc.mk2()
 		var wg sync.WaitGroup
 		var mu sync.Mutex
+		vals := make([][]float64, G)
 		for g := 0; g < G; g++ {
+			vals[g] = make([]float64, len(ps))
 			wg.Add(1)
 			go func(g int) {
 				defer wg.Done()
-				bad := 0
 				for i := range ps {
 					j := (i + g*37) % len(ps)
-					if v := cold.Evaluate(ps[j]); v != want[j] && !(math.IsNaN(v) && math.IsNaN(want[j])) {
-						bad++
-					}
+					vals[g][j] = cold.Evaluate(ps[j])
 				}
-				mu.Lock()
-				o.Mismatch += bad
-				o.Evals += len(ps)
-				mu.Unlock()
 			}(g)
 		}
 		wg.Wait()
+		// the reference is the sequential value of another instance - unless the constructor is not reproducible
+		// within one process (Bezier sampling draws from the library's seeded random source, so two text shapes
+		// differ slightly): then the instance's own sequential values, taken afterwards
+		// reference: the instance's own sequential values, taken afterwards (two instances built one after the
+		// other may differ slightly: Bezier sampling draws from the library's seeded random source); a shape that
+		// keeps state across calls must in addition agree with the other instance, or a race that corrupted the
+		// state for good would go unseen
+		same := func(a, b float64) bool { return a == b || (math.IsNaN(a) && math.IsNaN(b)) }
+		own := make([]float64, len(ps))
+		for i, p := range ps {
+			own[i] = cold.Evaluate(p)
+			if !same(own[i], want[i]) {
+				o.Unstable = true
+			}
+		}
+		for g := 0; g < G; g++ {
+			for j := range ps {
+				if v := vals[g][j]; !same(v, own[j]) || (o.Mutating && !same(v, want[j])) {
+					o.Mismatch++
+				}
+			}
+			o.Evals += len(ps)
+		}
 		// a shape that keeps state across Evaluate calls (a cache) is also driven through its growth:
 		// more than 2^20 distinct points, evaluated concurrently (quick tier: one such shape)
 		if o.Mutating && (tier() == "thorough" || name == "Cache2D(Circle2D)") {
@@ -457,25 +503,39 @@ func c10Child(args []string) error {
 		o.Mutating = deepDigest(ref) != d0
 		cold, _ := sc.mk3()
 		var wg sync.WaitGroup
-		var mu sync.Mutex
+		vals := make([][]float64, G)
 		for g := 0; g < G; g++ {
+			vals[g] = make([]float64, len(ps))
 			wg.Add(1)
 			go func(g int) {
 				defer wg.Done()
-				bad := 0
 				for i := range ps {
 					j := (i + g*37) % len(ps)
-					if v := cold.Evaluate(ps[j]); v != want[j] && !(math.IsNaN(v) && math.IsNaN(want[j])) {
-						bad++
-					}
+					vals[g][j] = cold.Evaluate(ps[j])
 				}
-				mu.Lock()
-				o.Mismatch += bad
-				o.Evals += len(ps)
-				mu.Unlock()
 			}(g)
 		}
 		wg.Wait()
+		// reference: the instance's own sequential values, taken afterwards (two instances built one after the
+		// other may differ slightly: Bezier sampling draws from the library's seeded random source); a shape that
+		// keeps state across calls must in addition agree with the other instance, or a race that corrupted the
+		// state for good would go unseen
+		same := func(a, b float64) bool { return a == b || (math.IsNaN(a) && math.IsNaN(b)) }
+		own := make([]float64, len(ps))
+		for i, p := range ps {
+			own[i] = cold.Evaluate(p)
+			if !same(own[i], want[i]) {
+				o.Unstable = true
+			}
+		}
+		for g := 0; g < G; g++ {
+			for j := range ps {
+				if v := vals[g][j]; !same(v, own[j]) || (o.Mutating && !same(v, want[j])) {
+					o.Mismatch++
+				}
+			}
+			o.Evals += len(ps)
+		}
 		// what the uniform marching cubes renderer does: one evaluation worker per CPU
 		cold2, _ := sc.mk3()
 		a := render.ToTriangles(cold2, render.NewMarchingCubesUniform(10))
